@@ -69,7 +69,8 @@ def plain_config(job, repo, out_dir, chunk_dir, key):
             "train_data_loader": {"batch_size": (4 if job.get("feed") == "derived" else 1), "shuffle": False, "num_workers": 0},
             "val_data_loader": {"batch_size": (4 if job.get("feed") == "derived" else 1), "num_workers": 0},
             "model_ckpt": {"save_top_k": 1, "save_last": True},
-            "early_stopping": {"stop_training_on_plateau": False, "min_delta": 1e-08, "patience": 20},
+            # the schema default of the section is null (no early stopping), like lr_scheduler
+            "early_stopping": (None if job.get("es") == "null" else {"stop_training_on_plateau": False, "min_delta": 1e-08, "patience": 20}),
             "trainer_devices": 1, "trainer_accelerator": "cpu", "enable_progress_bar": False, "steps_per_epoch": (None if job.get("feed") == "derived" else 1),
             "max_epochs": 1, "seed": 1000, "use_wandb": job["wandb"], "save_ckpt": job["ckpt"], "save_ckpt_path": out_dir,
             "resume_ckpt_path": None,
